@@ -12,7 +12,7 @@ CLAIMED = {
          "frame theorem holds for all inputs, valid or not; independence of suffix/offset is checked on the real decoders", "DESIGN.md 7 C03"),
  "C04": ("Coq: C04_no_panic (sup4_b => never Panic on any byte string, any fuel; Ok has the declared shape), C04_terminates / C04_terminates_decidable (term_b => with fuel (remaining/4)*(K+1)+K+1 never Fuel: every call cycle reads a word, every loop iteration steps over a word), reader totality, cursor stays inside; K3 on every truncation, boundary / random / huge / wrapping words; deep optional chains (F9)",
          "no-panic and termination theorems for every input under decidable hypotheses evaluated on the corpus; native stack depth (F9) and allocator failure are outside a Gallina model", "DESIGN.md 7 C04"),
- "C05": ("Coq: C05_no_prefix -- for every specification satisfying sup, every well-typed value, every strict byte-granular prefix of its encoding is rejected with InvalidLength (mutual induction using the C01 round trip for the complete parts); count > max and count > bytes present are InvalidLength, count = max accepted, for all buffers (reader level); C05_refuted_F3; bound carried by the emitted call tied by K2; K3 + exhaustive prefixes / over-max values as search",
+ "C05": ("Coq: C05_no_prefix -- for every specification satisfying sup, every well-typed value, every strict byte-granular prefix of its encoding is rejected with InvalidLength (mutual induction using the C01 round trip for the complete parts); count > max and count > bytes present are InvalidLength, count = max accepted, for all buffers (reader level); C05_refuted_F3; C05_bound_carried / C05_position_over_max (the emitted reader call carries the declared maximum, literal or constant, and a count above it is InvalidLength at that position); K3 + exhaustive prefixes / over-max values as search",
          "universal theorems over the model tied by K2/K3; emitted bounds tied by K2 on every bounded declarator form", "DESIGN.md 0 and 7 C05"),
  "C06": ("Coq: invalid boolean / option marker / enum word / non-UTF-8 rejected with the right Error for every word; union arm selection PARTIAL (semantics of emitted patterns tied by K2+K3, searched on every declared label)",
          "theorems over all 2^32 words (statements over N, not sweeps)", "DESIGN.md 7 C06"),
